@@ -148,14 +148,14 @@ def contentToBoxes (q : Quotes) (c : Content) (parent : KBox) (depth : Nat) : Ex
 /-- `marker_to_box(element, state, parent_style, …)` → zero or one box. -/
 def markerToBox (m : MarkerSpec) (attrs : El) (parentOutside : Bool) (depth : Nat) :
     Except BErr (List KBox × Nat) :=
-  -- `make_box` comes before the test of `display: none`
   let disp := blockify m.st.display m.st.float m.st.position false
-  match boxTypeFromDisplay disp with
-  | none => .error .keyError
-  | some k =>
-    let box := KBox.mk k (mkStyle m.st disp) attrs (initInst k attrs) [] [] []
-    if disp == ["none"] then .ok ([], depth)
-    else
+  -- `if style['display'] == ('none',): return` comes before `make_box`
+  if disp == ["none"] then .ok ([], depth)
+  else
+    match boxTypeFromDisplay disp with
+    | none => .error .keyError
+    | some k =>
+      let box := KBox.mk k (mkStyle m.st disp) attrs (initInst k attrs) [] [] []
       -- (children, quote depth, the box the source variable `box` is bound to afterwards: the text box
       -- made from `list-style-type` rebinds it, so the anonymous marker box inherits from that text box)
       let children : Except BErr (List KBox × Nat × KBox) :=
